@@ -114,6 +114,17 @@ let () =
           print_endline (match !diff with None -> "ok" | Some d -> d);
           q := []; t := E; hist := []; nb := 0; diff := None;
           blevel := None; bst := { db = []; upd = [] }; broot := []; berr := false
+      | ["R"; tg] ->
+          (* Revert to the root after batch <tg>: keys the model deletes (sorted), and the index
+             pastTries is cut at (first past root equal to the target) *)
+          let h = Array.of_list (List.rev !hist) in
+          let rt i = hex_of_bytes (root toy_hash th256 h.(i)) in
+          let target = int_of_string tg in
+          let first = ref target in
+          for i = target - 1 downto 0 do if rt i = rt target then first := i done;
+          let later = Array.to_list (Array.sub h (!first + 1) (Array.length h - !first - 1)) in
+          let dels = List.sort compare (List.map hex_of_bytes (revert_dels toy_hash h.(target) later)) in
+          Printf.printf "dels %d %s\n" !first (if dels = [] then "-" else String.concat "," dels)
       | ["T"; hx] -> print_endline (hex_of_bytes (toy_hash (bytes_of_hex hx)))
       | rest -> Driver_c11.handle toy_hash th256 (List.rev !hist) rest
     done
